@@ -13,6 +13,7 @@ from . import _partner as P
 
 ID = "C10"
 OPTIMISED_STRIDE = {"quick": 10, "thorough": 20}      # every k-th shard once more in an interpreter started with -O
+CHAIN_STRIDE = {'quick': 10, 'thorough': 30}      # every k-th shard is re-run in chains inside one process (non-initial process states)
 LEVEL = "fault_enumeration"
 ENGINE = "E2"
 TECHNIQUE = "exhaustive fault enumeration: the real memory-write generators against a spec model of IEC 62386-102 9.10, one fault of each kind at every answering step (deviation bound 1/2) and every non-conforming unit variant"
